@@ -122,12 +122,15 @@ def aldy_frame(tb):
 def _eval_chunk(chunk):
     out = []
     for idx, state in chunk:
+        t0 = time.time()
         try:
             o = _CHECK.evaluate(state)
         except Exception as ex:  # an unexpected exception is itself a finding
             site = aldy_frame(ex.__traceback__) or "harness"
             msg = "".join(traceback.format_exception(type(ex), ex, ex.__traceback__))[-1500:]
             o = Outcome([(f"exception/{type(ex).__name__}@{site}", msg)], key=("EXC",))
+        if time.time() - t0 > float(os.environ.get("VERIF_SLOW", "30")):
+            print(f"[slow] {time.time() - t0:.0f}s {_CHECK.describe(state)[:300]}", file=sys.stderr, flush=True)
         out.append((idx, o.pack()))
     return out
 
